@@ -97,14 +97,22 @@ def operator_matrix():
     cases = []
     for op in ["==", "!=", ">", "<", ">=", "<="]:
         for kind, lit, vals in (
-            ("num", num_lit, [17, 18, 19, 17.5, 18.5, 18.0, -18, 0]),
+            ("num", num_lit, [17, 18, 19, 17.5, 18.5, 18.0, -18, 0, float("nan"), float("inf"), 18.000000000000004, 17.999999999999996]),
             ("str", str_lit, ["l", "m", "n", "", "M", "ma", "lz"]),
-            ("float", Lit(1.5, "1.5"), [1.4999999999999998, 1.5, 1.5000000000000002, 1, 2]),
+            ("float", Lit(1.5, "1.5"), [1.4999999999999998, 1.5, 1.5000000000000002, 1, 2, float("nan"), 1.5000000001, 1.4999999999]),
+            ("float2", Lit(0.3, "0.3"), [0.1 + 0.2, 0.3, 0.29999999999999993, 0.30000000001, float("-inf")]),
             ("neg", Lit(-3, "-3"), [-4, -3, -2, 3, -3.0]),
         ):
-            for layout in ("field-literal", "literal-field", "field-field"):
+            for layout in ("field-literal", "literal-field", "field-field", "not-field-literal", "not-not-literal-field"):
                 if layout == "field-literal":
                     p = Cmp(Id("x"), op, lit)
+                    envs = [dict(x=v) for v in vals]
+                elif layout == "not-field-literal":
+                    # `not a < b` is not `a >= b` (unordered values), `not a == b` is not always `a != b` for every type
+                    p = Not(Cmp(Id("x"), op, lit))
+                    envs = [dict(x=v) for v in vals]
+                elif layout == "not-not-literal-field":
+                    p = Not(Not(Cmp(lit, op, Id("x"))))
                     envs = [dict(x=v) for v in vals]
                 elif layout == "literal-field":
                     p = Cmp(lit, op, Id("x"))
@@ -122,9 +130,20 @@ def operator_matrix():
             ("nested", Tup((Tup((Lit(1, "1"), Lit(2, "2"))), Tup((Lit(3, "3"), Lit(4, "4"))))),
              [(1, 2), (3, 4), (2, 1), (1,), 1, (1, 2, 3)]),
             ("with-ident", Tup((Id("y"), Lit("b", "b"))), None),
+            # a bare string on the right of `in` is Python's substring test; (s) would be a one-member tuple
+            ("bare-string", Lit("abc", "abc"), ["abc", "a", "bc", "", "ac", "abcd", "b"]),
+            ("bare-string-field", Id("y"), None),
+            ("literal-in-tuple-of-fields", Tup((Id("y"), Id("z"))), None),
         ):
             if kind == "with-ident":
                 envs = [dict(x=a, y=b) for a in ["a", "b", "c"] for b in ["a", "c"]]
+            elif kind == "bare-string-field":
+                envs = [dict(x=a, y=b) for a in ["a", "ab", "", "c"] for b in ["abc", "", "ab"]]
+            elif kind == "literal-in-tuple-of-fields":
+                envs = [dict(y=a, z=b) for a in ["admin", "user", ""] for b in ["admin", "ops"]]
+                cases.append(((op, kind, "literal-tuple"), Cmp(Lit("admin", "admin"), op, tup), envs))
+                cases.append(((op, kind, "tuple-tuple"), Cmp(Tup((Id("y"), Id("z"))), "==" if op == "in" else "!=", Tup((Lit("admin", "admin"), Lit("ops", "ops")))), envs))
+                continue
             else:
                 envs = [dict(x=v) for v in vals]
             cases.append(((op, kind, "field-tuple"), Cmp(Id("x"), op, tup), envs))
